@@ -43,10 +43,11 @@ class PBox(object):
     """(N,d) request in a box; optional reject predicate on a single point."""
     layout = "Nd"
 
-    def __init__(self, lo, hi, reject=None):
+    def __init__(self, lo, hi, reject=None, surface=None):
         self.lo = np.array(lo, dtype=float)
         self.hi = np.array(hi, dtype=float)
         self.reject = reject
+        self.surface = surface   # radius of a boundary surface of the problem (inert sphere, HE interface): points ON it
 
     def gen(self, n, v):
         d = len(self.lo)
@@ -63,6 +64,13 @@ class PBox(object):
 
     def special(self, rng):
         d = len(self.lo)
+        if self.surface is not None and rng.random() < 0.5:
+            # a point on the boundary surface up to rounding, the way a mesh generator produces it: (R cos a, R sin a[, ...])
+            a = 2.0 * math.pi * rng.random()
+            if d == 2:
+                return np.array([self.surface * math.cos(a), self.surface * math.sin(a)])
+            b = math.pi * rng.random()
+            return np.array([self.surface * math.sin(b) * math.cos(a), self.surface * math.sin(b) * math.sin(a), self.surface * math.cos(b)])
         for _ in range(20):
             p = np.array([rng.choice([self.lo[k], self.hi[k], 0.5 * (self.lo[k] + self.hi[k]), 0.0,
                                       self.lo[k] + (self.hi[k] - self.lo[k]) / 3.0]) for k in range(d)])
@@ -282,19 +290,19 @@ _fam("kenamond1", ["kenamond.kenamond1.Kenamond1"], [
     PSet(dict(x_d=(1., 1.), t_d=-2.), PBox([-3., -3.], [3., 3.]), [.6]),
 ])
 _fam("kenamond2", ["kenamond.kenamond2.Kenamond2"], [
-    PSet(dict(), PBox([.1, -12.], [5., 12.]), [.6]),
-    PSet(dict(geometry=3, D1=1.5), PBox([.1, -1., -12.], [5., 1., 12.]), [.6]),
-    PSet(dict(R=2., D2=1.), PBox([.1, -12.], [5., 12.]), [.6]),
+    PSet(dict(), PBox([.1, -12.], [5., 12.], surface=3.), [.6]),
+    PSet(dict(geometry=3, D1=1.5), PBox([.1, -1., -12.], [5., 1., 12.], surface=3.), [.6]),
+    PSet(dict(R=2., D2=1.), PBox([.1, -12.], [5., 12.], surface=2.), [.6]),
 ])
 _fam("kenamond3", ["kenamond.kenamond3.Kenamond3"], [
-    PSet(dict(), PBox([-6., -7.], [6., 7.], reject=lambda p: p[0] ** 2 + p[1] ** 2 < 3.05 ** 2), [.6]),
-    PSet(dict(geometry=3, x_d=(0., 0., 5.)), PBox([-6., -6., -7.], [6., 6., 7.], reject=lambda p: (p ** 2).sum() < 3.05 ** 2), [.6]),
-    PSet(dict(R=4., D=1., t_d=-2.), PBox([-6., -7.], [6., 7.], reject=lambda p: p[0] ** 2 + p[1] ** 2 < 4.05 ** 2), [.6]),
+    PSet(dict(), PBox([-6., -7.], [6., 7.], reject=lambda p: p[0] ** 2 + p[1] ** 2 < 3.05 ** 2, surface=3.), [.6]),
+    PSet(dict(geometry=3, x_d=(0., 0., 5.)), PBox([-6., -6., -7.], [6., 6., 7.], reject=lambda p: (p ** 2).sum() < 3.05 ** 2, surface=3.), [.6]),
+    PSet(dict(R=4., D=1., t_d=-2.), PBox([-6., -7.], [6., 7.], reject=lambda p: p[0] ** 2 + p[1] ** 2 < 4.05 ** 2, surface=4.), [.6]),
     PSet(dict(), PBox([-2., -2.], [2., 2.]), [.6], note="points inside the inert: natural failing op"),
 ])
 
 _fam("cylexpansion", ["dsd.cylexpansion.CylindricalExpansion"], [
-    PSet(dict(), PBox([-3., -3.], [3., 3.], reject=lambda p: not (1.0 <= p[0] ** 2 + p[1] ** 2 <= 9.0)), [.6]),
+    PSet(dict(), PBox([-3., -3.], [3., 3.], reject=lambda p: not (1.0 <= p[0] ** 2 + p[1] ** 2 <= 9.0), surface=2.), [.6]),
     PSet(dict(r_1=1.2, D_CJ_2=.5), PBox([-3., -3.], [3., 3.], reject=lambda p: not (1.0 <= p[0] ** 2 + p[1] ** 2 <= 9.0)), [.6]),
     PSet(dict(alpha_1=.05, r_2=2.5), PBox([-2.4, -2.4], [2.4, 2.4], reject=lambda p: not (1.0 <= p[0] ** 2 + p[1] ** 2 <= 6.0)), [.6]),
 ])
